@@ -132,6 +132,15 @@ func castBool(v string) (interface{}, error) {
 }
 
 func castInt(v string, t reflect.Type) (interface{}, error) {
+	switch t.Kind() {
+	case reflect.Uint, reflect.Uint8, reflect.Uint16, reflect.Uint32, reflect.Uint64:
+		// a negative (or too large) value must not wrap around into an unsigned field
+		uintV, err := strconv.ParseUint(v, 0, t.Bits())
+		if err != nil {
+			return nil, fmt.Errorf("'%s' cast to %s failed: %w", v, t, ErrCantCastVariableToTargetType)
+		}
+		return reflect.ValueOf(uintV).Convert(t).Interface(), nil
+	}
 	intV, err := strconv.ParseInt(v, 0, t.Bits())
 	if err != nil {
 		return nil, fmt.Errorf("'%s' cast to %s failed: %w", v, t, ErrCantCastVariableToTargetType)
